@@ -98,3 +98,68 @@ pub fn run_or_panic(target: &str, data: &[u8]) {
         panic!("VERIF:{}:{}: {}", TARGETS.iter().find(|t| t.0 == target).map(|t| t.1).unwrap_or("?"), f.sig, f.msg);
     }
 }
+
+/// a small valid seed corpus for a target (reference frames of every kind, shipped files, golden strings)
+pub fn seeds(target: &str) -> Vec<Vec<u8>> {
+    let mut out: Vec<Vec<u8>> = vec![];
+    match target {
+        "decode" | "reencode" => {
+            for (mi, mode) in [Mode::Uncompressed, Mode::Compressed].iter().enumerate() {
+                for p in &spec().packets {
+                    for tape in [&[][..], &[0x55u8; 64][..], &[0xffu8; 48][..]] {
+                        let mut v = vec![mi as u8];
+                        v.extend_from_slice(&image::from_tape(p, mode, tape, true).image);
+                        out.push(v);
+                    }
+                }
+            }
+        },
+        "frames" | "roundtrip" => {
+            for k in 0..spec().packets.len() {
+                for m in 0..2u8 {
+                    out.push(vec![m, k as u8]);
+                    let mut v = vec![m, k as u8];
+                    v.extend((0..96u32).map(|i| (i.wrapping_mul(37) ^ k as u32) as u8));
+                    out.push(v);
+                }
+            }
+        },
+        "codepages" => {
+            for s in ["Hello", "^7Player ^Eě ^7: ^8cršč", "ﾏ美 16", "ÿþabc", "^^L", "^Jタ^L", "Árvíztűrő tükörfúrógép"] {
+                out.push(s.as_bytes().to_vec());
+            }
+            out.push(vec![b'^', b'J', 0x83, 0x5e, b'L']);
+            out.push(vec![b'^', b'H', 0xa4, 0x40, b'^', b'S', 0x81, 0x40]);
+        },
+        "escaping" => {
+            for s in ["^|*:\\/?\"<>#123^945", "^L", "ł^8ł", "^^1234^56789", "a^"] {
+                out.push(s.as_bytes().to_vec());
+            }
+        },
+        "game_version" => {
+            for s in ["0.7F", "0.6W43", "0.04k", "0.7E15", "1", "0.7F0", "a4k"] {
+                out.push(s.as_bytes().to_vec());
+            }
+        },
+        "pth" => {
+            if let Ok(b) = std::fs::read("/repo/insim_pth/tests/AS1.pth") {
+                out.push(b[..b.len().min(16 + 40 * 6)].to_vec());
+            }
+            out.push(c17::write_pth(&c17::PthFile { version: 0, revision: 0, finish: 1, nodes: vec![[1, 2, 3, 0x3f80_0000, 0, 0, 4, 5, 6, 7]; 2] }));
+        },
+        "smx" => {
+            if let Ok(b) = std::fs::read("/repo/insim_smx/tests/Autocross_3DH.smx") {
+                out.push(b[..b.len().min(600)].to_vec());
+            }
+            out.push(c17::write_smx(&c17::SmxFile {
+                head: [0, 6, 0, 3, 1, 1],
+                track: "Blackwood".into(),
+                ground: [1, 2, 3],
+                objects: vec![c17::SmxObject { header: [1, 2, 3, 4], points: vec![[1, 2, 3, 4]; 2], tris: vec![[0, 1, 2]] }],
+                checkpoints: vec![0],
+            }));
+        },
+        _ => {},
+    }
+    out
+}
